@@ -14,8 +14,11 @@ import (
 	"sync"
 	"time"
 
+	"symgo/lift"
 	"symgo/sym"
 )
+
+var liftedSrc string
 
 const verifRoot = "/verif"
 
@@ -36,14 +39,15 @@ type RunSpec struct {
 }
 
 type Spec struct {
-	Property    string    `json:"property"`
-	PackageDir  string    `json:"package_dir"`
-	HarnessDirs []string  `json:"harness_dirs"`
-	Level       string    `json:"level"`
-	Runs        []RunSpec `json:"runs"`
-	Assumptions []string  `json:"assumptions"`
-	Outside     []string  `json:"outside"`
-	Trusted     []string  `json:"trusted_base"`
+	Property    string        `json:"property"`
+	PackageDir  string        `json:"package_dir"`
+	HarnessDirs []string      `json:"harness_dirs"`
+	Level       string        `json:"level"`
+	Regions     []lift.Region `json:"regions"`
+	Runs        []RunSpec     `json:"runs"`
+	Assumptions []string      `json:"assumptions"`
+	Outside     []string      `json:"outside"`
+	Trusted     []string      `json:"trusted_base"`
 }
 
 type Finding struct {
@@ -93,6 +97,7 @@ type instResult struct {
 	violations []violation
 	inconcl    []string
 	cosimOK    int
+	reached    map[string]bool
 	cosimBad   []string
 	sampleSMT  string
 	execSecs   float64
@@ -171,7 +176,13 @@ func mainCheck(a []string) int {
 	for _, h := range spec.HarnessDirs {
 		hdirs = append(hdirs, filepath.Join(verifRoot, h))
 	}
-	ld, err := sym.Load(spec.PackageDir, hdirs, nil)
+	extra, lerr := liftRegions(&spec)
+	if lerr != nil {
+		fmt.Println("LIFT ERROR (anchor not found or region not liftable):", lerr)
+		writeEvidence(&spec, tier, seed, nil, time.Since(t0).Seconds(), 0, []string{"lift error: " + lerr.Error()}, nil)
+		return 3
+	}
+	ld, err := sym.Load(spec.PackageDir, hdirs, extra)
 	if err != nil {
 		fmt.Println("LOAD ERROR:", err)
 		writeEvidence(&spec, tier, seed, nil, time.Since(t0).Seconds(), 0, []string{"load error: " + err.Error()}, nil)
@@ -268,6 +279,22 @@ func mainCheck(a []string) int {
 			}
 		}
 	}
+	// vacuity per obligation id over all instances of this check
+	reachAll := map[string]bool{}
+	for _, r := range results {
+		for id, ok := range r.reached {
+			reachAll[id] = reachAll[id] || ok
+		}
+	}
+	for id, ok := range reachAll {
+		if !ok {
+			fmt.Printf("   INCONCLUSIVE: VACUOUS obligation %s: no site reachable in any instance\n", id)
+			notes = append(notes, "vacuous obligation "+id)
+			if verdict == 0 {
+				verdict = 3
+			}
+		}
+	}
 	// violations
 	nviol := 0
 	seenKnown := map[string]bool{}
@@ -315,6 +342,23 @@ func mainCheck(a []string) int {
 	return verdict
 }
 
+func liftRegions(spec *Spec) (map[string][]byte, error) {
+	if len(spec.Regions) == 0 {
+		return nil, nil
+	}
+	env := append(os.Environ(), "GOWORK=off", "GOFLAGS=-mod=mod", "GOPROXY=off", "GOSUMDB=off", "GOTOOLCHAIN=local")
+	r, err := lift.Generate(spec.PackageDir, env, spec.Regions)
+	if err != nil {
+		return nil, err
+	}
+	liftedSrc = r.Source
+	if d := os.Getenv("VERIF_DUMP"); d != "" {
+		os.MkdirAll(d, 0755)
+		os.WriteFile(filepath.Join(d, "lifted_"+spec.Property+".go"), []byte(r.Source), 0644)
+	}
+	return map[string][]byte{"zz_verif_lifted.go": []byte(r.Source)}, nil
+}
+
 func contains(l []string, s string) bool {
 	for _, x := range l {
 		if x == s {
@@ -333,8 +377,8 @@ func tail(s string, n int) string {
 
 type pendingQ struct {
 	kind, id, site, expect, where string
-	assert                  *sym.Term
-	oblIDs                  []string
+	assert                        *sym.Term
+	oblIDs                        []string
 }
 
 func runInstance(ld *sym.Loaded, spec *Spec, rs *RunSpec, args []int64, known map[string]bool, ssaMu *sync.Mutex) *instResult {
@@ -497,6 +541,7 @@ func runInstance(ld *sym.Loaded, spec *Spec, rs *RunSpec, args []int64, known ma
 		}
 	}
 	// triage
+	reachedID := map[string]bool{}
 	var cosimModel map[string]string
 	for i, q := range qs {
 		r := srs[i]
@@ -532,7 +577,20 @@ func runInstance(ld *sym.Loaded, spec *Spec, rs *RunSpec, args []int64, known ma
 			default:
 				res.inconcl = append(res.inconcl, fmt.Sprintf("obligation %s: solver %s (%v) within %v", q.id, r.Status, r.All, timeout))
 			}
-		case "reach", "cover":
+		case "reach":
+			// vacuity is judged per obligation id: at least one site must be reachable
+			if r.Status == "sat" {
+				reachedID[q.id] = true
+			} else if r.Status == "unsat" {
+				out[i].Expect = "unsat"
+				out[i].Note = "site unreachable in this instance"
+				if _, ok := reachedID[q.id]; !ok {
+					reachedID[q.id] = false
+				}
+			} else {
+				res.inconcl = append(res.inconcl, fmt.Sprintf("%s %s: solver %s", q.kind, q.id, r.Status))
+			}
+		case "cover":
 			if r.Status == "unsat" {
 				res.inconcl = append(res.inconcl, fmt.Sprintf("VACUOUS %s %s: never reached", q.kind, q.id))
 			} else if r.Status != "sat" {
@@ -568,6 +626,7 @@ func runInstance(ld *sym.Loaded, spec *Spec, rs *RunSpec, args []int64, known ma
 			}
 		}
 	}
+	res.reached = reachedID
 	// co-simulation: evaluate observations under a model and compare with native
 	if !rs.NoCosim && cosimModel != nil && len(e.Observes) > 0 {
 		cosim(e, spec, rs, args, cosimModel, res, known)
@@ -731,6 +790,16 @@ func nativeReplayFile(spec *Spec, replayPath, tmp string) (fails []string, assum
 		for _, f := range files {
 			overlay[filepath.Join(spec.PackageDir, "zz_verif_"+filepath.Base(f))] = f
 		}
+	}
+	if len(spec.Regions) > 0 {
+		if liftedSrc == "" {
+			if _, err := liftRegions(spec); err != nil {
+				return nil, false, "", err
+			}
+		}
+		lf := filepath.Join(tmp, "zz_verif_lifted.go")
+		os.WriteFile(lf, []byte(liftedSrc), 0644)
+		overlay[filepath.Join(spec.PackageDir, "zz_verif_lifted.go")] = lf
 	}
 	tf := filepath.Join(tmp, "zz_verif_replay_test.go")
 	os.WriteFile(tf, []byte(fmt.Sprintf(replayTest, pkgNameOf(spec.PackageDir))), 0644)
